@@ -86,12 +86,29 @@ func safeCompare(c *vf.Ctx, h, pw []byte, where string) (err error, ran bool) {
 			}
 		}
 	}
+	// Hardening A: the package only ever sees private copies of the hash and the password. They
+	// sit inside sentinel-framed buffers, alternately with spare capacity behind them (an append
+	// inside the package would write into the caller's memory) and with capacity == length; they
+	// must be intact after every call.
+	origH, origPw := h, pw
+	spare := (len(origH)+len(origPw))%2 == 0
+	fh, h := guard(origH, spare)
+	fp, pw := guard(origPw, !spare || len(origPw)%3 == 0)
+	check := func(api string) {
+		if !intact(fh, origH) {
+			c.Violation(api+" writes to the caller's hash buffer or its spare capacity", map[string]any{"hash": string(origH), "hex": hex.EncodeToString(origH), "after": hex.EncodeToString(fh), "where": where})
+		}
+		if !intact(fp, origPw) {
+			c.Violation(api+" writes to the caller's password buffer or its spare capacity", map[string]any{"hash": string(origH), "pwlen": len(origPw), "where": where})
+		}
+	}
 	var cost int
 	var cerr error
 	if p, v, st := vf.Protect(func() { cost, cerr = bcrypt.Cost(h) }); p {
 		c.Violation("bcrypt.Cost panics ("+where+")", map[string]any{"hash": string(h), "hex": hex.EncodeToString(h), "panic": fmt.Sprint(v), "stack": st})
 		return nil, false
 	}
+	check("bcrypt.Cost")
 	if cerr == nil && cost > maxCompareCost {
 		return nil, false
 	}
@@ -99,7 +116,35 @@ func safeCompare(c *vf.Ctx, h, pw []byte, where string) (err error, ran bool) {
 		c.Violation("bcrypt.CompareHashAndPassword panics ("+where+")", map[string]any{"hash": string(h), "hex": hex.EncodeToString(h), "pwlen": len(pw), "panic": fmt.Sprint(v), "stack": st})
 		return nil, false
 	}
+	check("bcrypt.CompareHashAndPassword")
 	return err, true
+}
+
+// guard places a private copy of b in a frame: 8 sentinel bytes in front, 24 behind. With spare
+// the returned slice's capacity extends over the trailing sentinels, otherwise cap == len.
+func guard(b []byte, spare bool) (frame, s []byte) {
+	frame = bytes.Repeat([]byte{0xA5}, 8+len(b)+24)
+	copy(frame[8:], b)
+	if spare {
+		return frame, frame[8 : 8+len(b)]
+	}
+	return frame, frame[8 : 8+len(b) : 8+len(b)]
+}
+
+func intact(frame, orig []byte) bool {
+	if len(frame) != 8+len(orig)+24 {
+		return false
+	}
+	for i, v := range frame {
+		if i >= 8 && i < 8+len(orig) {
+			if v != orig[i-8] {
+				return false
+			}
+		} else if v != 0xA5 {
+			return false
+		}
+	}
+	return true
 }
 
 // password value classes for length n: seeded bytes (NULs allowed) with the last byte forced.
@@ -133,6 +178,8 @@ func run(c *vf.Ctx) {
 		"B: CompareHashAndPassword over pwlen 0..80 x value classes x minor{a,b,y} x salt classes x candidates{same, each single byte changed, -1 byte, +1 byte of 5 values, pw|0|pw, tail changes beyond 72, len 255..257} vs 72-byte-cyclic-key oracle (+ model on sub-grid); " +
 		"C: 245 embedded libxcrypt hashes + live libxcrypt when reachable; " +
 		"D: all single-byte substitutions/truncations/extensions of valid hashes, all strings of len<=2, all header double substitutions: no panic, success only if model verifies; " +
+		"hardening: (A) every GenerateFromPassword / Cost / CompareHashAndPassword call of every grid receives hash and password as private copies in sentinel-framed buffers, alternately with spare capacity behind the slice and with cap == len, which must be intact after the call (passwords are wiped after Generate); (C/E) candidate lengths 65535, 65536, 65537, 2^20+1 for pwlen in {0,8,..,64,71..80}, trailing garbage of 196, 197, 65477 and 2^20 bytes after a valid hash; " +
+		"(D/B) every history of 3 operations {compare right, compare wrong, cost, generate+compare, compare malformed (59-byte $2a$), compare 200-byte cyclic continuation} on ONE set of caller buffers x hash form {$2a$, $2b$, $2y$ cost 5, $2$, $2a$+trailing bytes} x {spare capacity, cap == len}: each result as on fresh buffers, all buffers intact after each operation; " +
 		"non-trivial = distinct (grid, pwlen, class, cost/minor, candidate kind / fault position) evaluated against the oracle")
 	c.Assume("values: passwords/salts from a fixed alphabet plus seeded classes; costs above 10 are not executed (2^cost key expansions); Cost() alone is checked for cost fields up to 99")
 	c.Assume("reference model: eksblowfish on pi-computed Blowfish tables, validated by the Openwall/OpenBSD vectors and 245 libxcrypt hashes; libxcrypt $2a$ differs from OpenBSD for a few 8-bit passwords (collision countermeasure), so live $2a$ interop uses 7-bit passwords")
@@ -147,11 +194,18 @@ func run(c *vf.Ctx) {
 		rr.take()
 		var h []byte
 		var err error
-		if p, v, st := vf.Protect(func() { h, err = bcrypt.GenerateFromPassword(pw, cost) }); p {
+		fpw, gpw := guard(pw, (len(pw)+cost)%2 == 0)
+		if p, v, st := vf.Protect(func() { h, err = bcrypt.GenerateFromPassword(gpw, cost) }); p {
 			c.Violation("bcrypt.GenerateFromPassword panics", map[string]any{"pwlen": len(pw), "cost": cost, "panic": fmt.Sprint(v), "stack": st})
 			return
 		}
 		c.Eval(1)
+		if !intact(fpw, pw) {
+			c.Violation("bcrypt.GenerateFromPassword writes to the caller's password buffer or its spare capacity", map[string]any{"pwlen": len(pw), "cost": cost})
+		}
+		for i := range fpw { // the caller wipes its password; the returned hash must not care
+			fpw[i] ^= 0xFF
+		}
 		if err != nil {
 			c.Violation("bcrypt.GenerateFromPassword fails for a valid password/cost", map[string]any{"pwlen": len(pw), "cost": cost, "err": err.Error()})
 			return
@@ -298,7 +352,12 @@ func run(c *vf.Ctx) {
 		cands = append(cands, cand{"pw|00|pw", append(append(append([]byte(nil), pw...), 0), pw...)})
 		cands = append(cands, cand{"pw|00", append(append([]byte(nil), pw...), 0)})
 		cands = append(cands, cand{"pw|00|00", append(append([]byte(nil), pw...), 0, 0)})
-		for _, total := range []int{72, 73, 74, 255, 256, 257} {
+		totals := []int{72, 73, 74, 255, 256, 257}
+		if g.v == 0 && (g.n%8 == 0 || g.n >= 71) {
+			// Hardening C/E: candidate lengths around 2^16 and 2^20 (only the first 72 bytes of the cyclic key count)
+			totals = append(totals, 65535, 65536, 65537, 1<<20+1)
+		}
+		for _, total := range totals {
 			if total > g.n {
 				// cyclic continuation of pw||NUL up to total bytes: same key iff bcrypt only sees 72 bytes
 				k := append(append([]byte(nil), pw...), 0)
@@ -435,7 +494,7 @@ func run(c *vf.Ctx) {
 			}
 			c.Nontrivial(fmt.Sprintf("D/trunc/%d/%d", b, n))
 		}
-		for _, ext := range []string{"\x00", "a", "$", ".", "\n", "==", "aaaa", strings.Repeat("A", 100)} {
+		for _, ext := range []string{"\x00", "a", "$", ".", "\n", "==", "aaaa", strings.Repeat("A", 100), strings.Repeat("/", 196), strings.Repeat("A", 197), strings.Repeat("z", 65536-59), strings.Repeat("A", 1<<20)} {
 			checkMalformed(c, []byte(base+ext), pwD, "extension")
 			c.Nontrivial(fmt.Sprintf("D/ext/%d/%q", b, ext))
 		}
@@ -488,6 +547,8 @@ func run(c *vf.Ctx) {
 		}
 		c.Nontrivial("D/prefix/" + pre)
 	}
+
+	histories(c)
 
 	// ------------------------------------------------------------------ E: Cost over every cost field
 	for v := 0; v <= 99; v++ {
@@ -728,3 +789,118 @@ for line in sys.stdin:
 		c.Nontrivial("C/live/in/" + resp.Out[:29])
 	}
 }
+
+// histories (hardening D/A/B): every sequence of 3 operations on ONE set of caller-owned buffers
+// (hash slice, right password, wrong password, a malformed hash), for several hash forms and both
+// capacity layouts. After every operation the result must be the one the operation gives on fresh
+// buffers and all four buffers must be byte for byte what the caller put there.
+func histories(c *vf.Ctx) {
+	right, wrong := []byte("history right pw"), []byte("history wrong pw")
+	salt := c.Bytes("hist-salt", 0, 16)
+	h2a := bcryptref.Hash(right, 4, salt, 'a')
+	type form struct {
+		name string
+		hash string
+	}
+	forms := []form{
+		{"$2a$", h2a},
+		{"$2b$", bcryptref.Hash(right, 4, c.Bytes("hist-salt", 1, 16), 'b')},
+		{"$2y$ cost 5", bcryptref.Hash(right, 5, c.Bytes("hist-salt", 2, 16), 'y')},
+		{"$2$ (59 bytes)", "$2$" + h2a[4:]},
+		{"$2a$ with trailing bytes", h2a + "trailing"},
+	}
+	short59 := bad0(h2a) // a $2a$ hash that is one character short
+	ops := []string{"compare right", "compare wrong", "cost", "generate+compare", "compare malformed", "compare right 72+"}
+	long := append(append([]byte(nil), right...), 0)
+	for len(long) < 200 {
+		long = append(long, long[:len(right)+1]...)
+	}
+	n := len(ops)
+	type job struct {
+		f     int
+		spare bool
+		h     int
+	}
+	var jobs []job
+	for f := range forms {
+		for _, sp := range []bool{true, false} {
+			for h := 0; h < n*n*n; h++ {
+				jobs = append(jobs, job{f, sp, h})
+			}
+		}
+	}
+	c.ParallelFor(len(jobs), func(i int) {
+		j := jobs[i]
+		fm := forms[j.f]
+		wantCost := 4
+		if strings.Contains(fm.name, "cost 5") {
+			wantCost = 5
+		}
+		fH, H := guard([]byte(fm.hash), j.spare)
+		fR, R := guard(right, j.spare)
+		fW, W := guard(wrong, !j.spare)
+		fB, B := guard([]byte(short59), j.spare)
+		fL, L := guard(long, j.spare)
+		seq := []int{j.h / (n * n), j.h / n % n, j.h % n}
+		for pos, k := range seq {
+			d := map[string]any{"form": fm.name, "spare_capacity": j.spare, "history": []string{ops[seq[0]], ops[seq[1]], ops[seq[2]]}, "position": pos}
+			var bad string
+			pan, val, st := vf.Protect(func() {
+				switch ops[k] {
+				case "compare right":
+					if err := bcrypt.CompareHashAndPassword(H, R); err != nil {
+						bad = "CompareHashAndPassword rejects the right password: " + err.Error()
+					}
+				case "compare right 72+":
+					if err := bcrypt.CompareHashAndPassword(H, L); err != nil {
+						bad = "CompareHashAndPassword rejects the cyclic continuation of the right password: " + err.Error()
+					}
+				case "compare wrong":
+					if err := bcrypt.CompareHashAndPassword(H, W); err != bcrypt.ErrMismatchedHashAndPassword {
+						bad = "CompareHashAndPassword on a wrong password returns " + fmt.Sprint(err)
+					}
+				case "cost":
+					if cost, err := bcrypt.Cost(H); err != nil || cost != wantCost {
+						bad = "Cost returns " + fmt.Sprint(cost, err)
+					}
+				case "compare malformed":
+					if err := bcrypt.CompareHashAndPassword(B, R); err == nil {
+						bad = "CompareHashAndPassword accepts a truncated hash"
+					}
+				case "generate+compare":
+					g, err := bcrypt.GenerateFromPassword(R, 4)
+					if err != nil {
+						bad = "GenerateFromPassword fails: " + err.Error()
+					} else if ok, _ := bcryptref.Verify(string(g), right); !ok {
+						bad = "GenerateFromPassword output does not verify under the model"
+					} else if bcrypt.CompareHashAndPassword(g, R) != nil || bcrypt.CompareHashAndPassword(g, W) == nil {
+						bad = "generated hash does not verify exactly the right password"
+					}
+				}
+			})
+			c.Eval(1)
+			if pan {
+				d["panic"], d["stack"] = fmt.Sprint(val), st
+				c.Violation("bcrypt panics in an operation history on shared buffers", d)
+				return
+			}
+			if bad != "" {
+				d["what"] = bad
+				c.Violation("bcrypt result depends on earlier operations on the same buffers ("+ops[k]+")", d)
+			}
+			if !intact(fH, []byte(fm.hash)) || !intact(fB, []byte(short59)) {
+				d["hash_after"] = string(fH[8 : 8+len(fm.hash)])
+				c.Violation("bcrypt ("+ops[k]+") writes to the caller's hash buffer or its spare capacity", d)
+				return
+			}
+			if !intact(fR, right) || !intact(fW, wrong) || !intact(fL, long) {
+				c.Violation("bcrypt ("+ops[k]+") writes to the caller's password buffer or its spare capacity", d)
+				return
+			}
+		}
+		c.Nontrivial(fmt.Sprintf("H/%d/%v/%d", j.f, j.spare, j.h))
+	})
+	c.Outcome("operation histories on shared buffers checked")
+}
+
+func bad0(h2a string) string { return h2a[:59] }
